@@ -1,7 +1,7 @@
 #!/bin/bash
 # seedall.sh [-j N] [pattern]: run every filed seed against the check(s) of its property (meta.json: "check_ids" overrides
 # the default = its property) in parallel on scratch worktrees (tools/pmt.sh); one line each.  /repo is not touched.
-cd /verif
+cd "$(dirname "$(readlink -f "$0")")/.." || exit 2
 J=4; [ "$1" = -j ] && { J=$2; shift 2; }
 specs=()
 for d in seeded/${1:-*}; do
